@@ -209,6 +209,9 @@ pub struct WastedRec {
     pub observed_hist: Vec<DBox>,
     pub predicted_hist: Vec<DBox>,
     pub feature_hist: Option<Vec<Option<Vec<f32>>>>,
+    /// VisualSORT: (reported count of collected features, stored class-0 observations carrying a feature, their qualities)
+    /// read from the expired track itself before it is converted
+    pub gallery: Option<(usize, usize, Vec<f32>)>,
 }
 
 #[derive(Clone, Debug, PartialEq)]
@@ -260,30 +263,42 @@ pub enum AnyTracker {
 
 fn vis_options(cfg: &Cfg) -> VisualSortOptions {
     let v = &cfg.vis;
-    let mut o = VisualSortOptions::default()
-        .max_idle_epochs(cfg.max_idle)
-        .kept_history_length(cfg.history)
-        .visual_metric(match v.metric {
-            VisMetric::Euclid(t) => VisualSortMetricType::Euclidean(t),
-            VisMetric::Cosine(t) => VisualSortMetricType::Cosine(t),
-        })
-        .positional_metric(match cfg.pos {
-            PosMetric::IoU(t) => PositionalMetricType::IoU(t),
-            PosMetric::Maha => PositionalMetricType::Mahalanobis,
-        })
-        .visual_min_votes(v.min_votes)
-        .visual_minimal_track_length(v.min_track_len)
-        .visual_max_observations(v.max_obs)
-        .visual_minimal_area(v.min_area)
-        .visual_minimal_quality_use(v.q_use)
-        .visual_minimal_quality_collect(v.q_collect)
-        .visual_minimal_own_area_percentage_use(v.own_use)
-        .visual_minimal_own_area_percentage_collect(v.own_collect)
-        .positional_min_confidence(cfg.min_conf)
-        .kalman_position_weight(cfg.wp)
-        .kalman_velocity_weight(cfg.wv);
-    if let Some(c) = cfg.constraints_lib() {
-        o = o.spatio_temporal_constraints(c);
+    // the builder calls are independent of one another: their order is a function of the configuration (so that a
+    // replay rebuilds the same tracker) but otherwise arbitrary
+    let mut order: Vec<usize> = (0..16).collect();
+    let mut h = crate::rng::Hasher::new();
+    h.str(&format!("{:?}", cfg));
+    let mut r = crate::rng::Rng::for_case(h.get(), 0, 0);
+    r.shuffle(&mut order);
+    let mut o = VisualSortOptions::default();
+    for k in order {
+        o = match k {
+            0 => o.max_idle_epochs(cfg.max_idle),
+            1 => o.kept_history_length(cfg.history),
+            2 => o.visual_metric(match v.metric {
+                VisMetric::Euclid(t) => VisualSortMetricType::Euclidean(t),
+                VisMetric::Cosine(t) => VisualSortMetricType::Cosine(t),
+            }),
+            3 => o.positional_metric(match cfg.pos {
+                PosMetric::IoU(t) => PositionalMetricType::IoU(t),
+                PosMetric::Maha => PositionalMetricType::Mahalanobis,
+            }),
+            4 => o.visual_min_votes(v.min_votes),
+            5 => o.visual_minimal_track_length(v.min_track_len),
+            6 => o.visual_max_observations(v.max_obs),
+            7 => o.visual_minimal_area(v.min_area),
+            8 => o.visual_minimal_quality_use(v.q_use),
+            9 => o.visual_minimal_quality_collect(v.q_collect),
+            10 => o.visual_minimal_own_area_percentage_use(v.own_use),
+            11 => o.visual_minimal_own_area_percentage_collect(v.own_collect),
+            12 => o.positional_min_confidence(cfg.min_conf),
+            13 => o.kalman_position_weight(cfg.wp),
+            14 => o.kalman_velocity_weight(cfg.wv),
+            _ => match cfg.constraints_lib() {
+                Some(c) => o.spatio_temporal_constraints(c),
+                None => o,
+            },
+        };
     }
     o
 }
@@ -549,9 +564,16 @@ fn wasted_sort(t: SortStored) -> WastedRec {
         observed_hist: w.observed_boxes.iter().map(DBox::from_lib).collect(),
         predicted_hist: w.predicted_boxes.iter().map(DBox::from_lib).collect(),
         feature_hist: None,
+        gallery: None,
     }
 }
 fn wasted_visual(t: VisualStored) -> WastedRec {
+    let gallery = {
+        let count = t.get_attributes().visual_features_collected_count;
+        let obs = t.get_observations(0);
+        let withf: Vec<f32> = obs.map(|o| o.iter().filter(|x| x.feature().is_some()).map(|x| x.attr().as_ref().map(|a| a.visual_quality()).unwrap_or(-1.0)).collect()).unwrap_or_default();
+        Some((count, withf.len(), withf))
+    };
     let w = similari::trackers::visual_sort::WastedVisualSortTrack::from(t);
     WastedRec {
         id: w.id,
@@ -563,6 +585,7 @@ fn wasted_visual(t: VisualStored) -> WastedRec {
         observed_hist: w.observed_boxes.iter().map(DBox::from_lib).collect(),
         predicted_hist: w.predicted_boxes.iter().map(DBox::from_lib).collect(),
         feature_hist: Some(w.observed_features.clone()),
+        gallery,
     }
 }
 
@@ -847,7 +870,8 @@ pub fn step_scene(rng: &mut Rng, objs: &mut [Obj], scene: u64, step: usize, o: &
             } else if rng.chance(0.1) {
                 None
             } else {
-                Some(rng.uniform(0.3, 1.0) as f32)
+                // (qualities are arbitrary non-negative numbers: a fifth of the worlds report them on a 0..5 scale)
+                Some((rng.uniform(0.3, 1.0) * if ob.flen_mix || ob.truth % 5 == 4 { 5.0 } else { 1.0 }) as f32)
             }
         } else {
             None
@@ -913,7 +937,9 @@ pub fn gen_history(rng: &mut Rng, w: &WorldOpts, h: &HistOpts) -> Vec<Op> {
         attempts += 1;
         let r = rng.usize(100);
         if h.lifecycle_ops && r < 6 {
-            ops.push(Op::Skip { scene: rng.below(w.scenes as u64), n: rng.usize(4) });
+            // (now and then a scene leaps thousands of epochs ahead of the others)
+            let n = if rng.chance(0.08) { 1200 + rng.usize(4000) } else { rng.usize(4) };
+            ops.push(Op::Skip { scene: rng.below(w.scenes as u64), n });
         } else if h.lifecycle_ops && r < 14 {
             ops.push(Op::Wasted);
         } else if h.lifecycle_ops && r < 22 {
